@@ -3,7 +3,7 @@
 # from the local wheelhouse.  Idempotent.
 set -e
 cd "$(dirname "$0")"
-V=/verif/.venv
+V="$(pwd)/.venv"
 if [ ! -x "$V/bin/python" ] || ! "$V/bin/python" -c 'import crosshair, z3, networkx, numpy' 2>/dev/null; then
   rm -rf "$V"
   /venv/bin/python -m venv "$V"
